@@ -10,7 +10,7 @@ a generic symbol an opaque token.  Alphabet spec: `L:65,67` (LetterAlphabet) / `
 enc A syms | enc1 A sym | dec A dtype codes | dec1 A code | newalph A | map A B codes | extends A B
 s_new A syms | s_nuc bytes | s_prot bytes | s_str i | s_code i | s_get i idx | s_set i idx sym
 s_slice i a b | s_setslice i a b syms | s_add i j | s_rev i | s_eq i j | s_copy i | s_compl i
-s_setcode i dtype codes | s_valid i
+s_setcode i dtype codes | s_setarr i a b dtype codes | s_valid i
 k_fuse n k dtype codes | k_split n k code | k_kmers n k spacing dtype codes | k_enc A k syms | k_dec A k code
 c_tbl aa starts | c_load id | c_default | c_tr complete met dna | c_get codon
 ```
@@ -202,6 +202,17 @@ def step (st : State) (line : String) : State × String :=
         | .error e => pure (errS e)
       | none => pure "ERR:noreg"
     | _, _ => pure "bad-op"
+  | ["s_setarr", i, a, b, dt, codes] =>
+    match i.toNat?, optInt a, optInt b, parseInts codes with
+    | some r, some a, some b, some cs =>
+      match st.regs[r]? with
+      | some s =>
+        let same := dt == "u" ++ toString (dtypeBits s.alph.length)
+        match s.setSliceCodes same a b cs with
+        | .ok s' => ({ st with regs := st.regs.set r s' }, "ok " ++ showSyms s')
+        | .error e => pure (errS e)
+      | none => pure "ERR:noreg"
+    | _, _, _, _ => pure "bad-op"
   -- k-mers
   | ["k_fuse", n, k, _dt, codes] =>
     match n.toNat?, k.toNat?, parseInts codes with
